@@ -76,7 +76,7 @@ META = {
         rule="one condition = one CrossHair run to 'Confirmed over all paths' (format x field family)",
     ),
     "C09": dict(
-        bounds={"names": "all ordered pairs of 40 names (ions up to 4 charges, three electron spellings, ortho/para labels, ice and gas pairs, grains, H2*, c-/l- isomers, D-isotopologues)", "surface spellings": "'#X' vs 'GX' with a custom prefix for 6 molecules",
+        bounds={"names": "all ordered pairs of 44 names (ions up to 4 positive and 2 negative charges, three electron spellings, ortho/para labels, ice and gas pairs, grains, H2*, c-/l- isomers, D-isotopologues)", "surface spellings": "'#X' vs 'GX' with a custom prefix for 6 molecules",
                 "projects": ["naming network (native file, hh93)", "minimal.kida", "primordial.krome with cooling", "UCLCHEM upper-case list with replacement (rr07)"], "artefacts": ["naunet_macros.h through the real preprocessor", "constant_indexes.py (ast)", "[summary] of naunet_config.toml written by `naunet render`", "enzo/naunet_enzo.h from `naunet render --patch enzo`"]},
         assume=["(a) name pairs are picked by symbolic selectors and evaluated untraced; (b) the per-project obligations are ground facts read from the generated files; the bijection is discharged as a z3 Distinct/range query",
                 "identity classes of the 40 names are given by construction"],
